@@ -83,8 +83,8 @@ def histories(draw, tier):
 
     for _ in range(nsteps):
         if sess is None:
-            kind = draw(st.sampled_from(["open"] * 10 + ["mismatch", "mismatch", "read", "read", "linkify"]))
-            if kind in ("mismatch", "linkify") and not taken:
+            kind = draw(st.sampled_from(["open"] * 10 + ["mismatch", "mismatch", "read", "read", "linkify", "regen"]))
+            if kind in ("mismatch", "linkify", "regen") and not taken:
                 kind = "open"
             if kind == "open":
                 d = draw(st.integers(0, ndirs - 1))
@@ -119,6 +119,9 @@ def histories(draw, tier):
             elif kind == "mismatch":
                 dirs_with = sorted(set(taken.values()))
                 steps.append({"s": "mismatch", "dir": draw(st.sampled_from(dirs_with)), "param": draw(st.sampled_from(MISMATCH))})
+            elif kind == "regen":
+                # the channel's properties file is lost and regenerated from the data files; everything goes on as before
+                steps.append({"s": "regen", "dir": draw(st.sampled_from(sorted(set(taken.values()))))})
             elif kind == "linkify":
                 # what `drf ln --symbolic` / moving data to another disk and linking it back leaves: the finalized files of
                 # a channel directory become symbolic links to their content
@@ -290,6 +293,17 @@ def directed_cases(tier):
                      {"s": "open", "dir": dirs[1], "start": 300, "salt": 7002, "uuid": "sess95", "mode": "later"},
                      {"s": "write", "op": {"op": "w", "idx": 0, "len": 200, "cid": 1}, "expect": "ok"}, {"s": "close"}, {"s": "read"}]
             out.append({"cfg": c0, "ndirs": 2, "steps": steps, "env": {"pad": 0, "cwd": None, "keep_reader": False, "repeat": 1}})
+        # a second directory whose session has not finalized a file yet (reads while it is open); the properties file of
+        # the first directory regenerated between two sessions
+        steps = [{"s": "open", "dir": 0, "start": b, "salt": 8001, "uuid": "sess96", "mode": "first"},
+                 {"s": "write", "op": {"op": "w", "idx": 0, "len": 150, "cid": 0}, "expect": "ok"}, {"s": "close"}, {"s": "read"},
+                 {"s": "open", "dir": 1, "start": b + 1000, "salt": 8002, "uuid": "sess97", "mode": "later"}, {"s": "read"},
+                 {"s": "write", "op": {"op": "w", "idx": 0, "len": 40, "cid": 1}, "expect": "ok"}, {"s": "read"}, {"s": "close"}, {"s": "read"},
+                 {"s": "regen", "dir": 0},
+                 {"s": "open", "dir": 0, "start": b + 3000, "salt": 8003, "uuid": "sess98", "mode": "later"},
+                 {"s": "write", "op": {"op": "w", "idx": 0, "len": 60, "cid": 2}, "expect": "ok"}, {"s": "close"},
+                 {"s": "mismatch", "dir": 0, "param": "cont"}, {"s": "mismatch", "dir": 0, "param": "S"}, {"s": "read"}]
+        out.append({"cfg": cfg, "ndirs": 2, "steps": steps, "env": {"pad": 0, "cwd": None, "keep_reader": False, "repeat": 1}})
         # every kind of parameter mismatch against a channel that holds data
         steps = [{"s": "open", "dir": 0, "start": b, "salt": 6001, "uuid": "sess93", "mode": "first"},
                  {"s": "write", "op": {"op": "w", "idx": 0, "len": 250, "cid": 0}, "expect": "ok"}, {"s": "close"}]
@@ -509,6 +523,18 @@ def run_case(case, keep=None, on_tree=None):
                       if saved_props is not None:
                           with open(os.path.join(chd, "drf_properties.h5"), "wb") as f_:
                               f_.write(saved_props)
+                  elif kind == "regen":
+                      chd = os.path.join(tops[st_["dir"]], "ch0")
+                      pp = os.path.join(chd, "drf_properties.h5")
+                      if os.path.exists(pp) and any(fn.startswith("rf@") for _d, _dn, fns in os.walk(chd) for fn in fns):
+                          os.remove(pp)
+                          hashes.pop(pp, None)  # (the regenerated file is a new file; DATA files must stay as they are)
+                          try:
+                              with rfharness.quiet_fds():
+                                  rfharness.drf().recreate_properties_file(chd)
+                          except Exception as e:
+                              fail("regenerate-properties-failed", "step %d: %s: %s" % (si, type(e).__name__, e))
+                              raise _Stop()
                   elif kind == "linkify":
                       chd = os.path.join(tops[st_["dir"]], "ch0")
                       store = os.path.join(base, "store%d" % st_["dir"])
@@ -697,6 +723,16 @@ def _read_queries(cfg, rd, kept, definite, maybe, windows, fail, si, open_win, v
             if k0 + l0 >= k1:
                 fail("union-blocks-not-merged", "step %d: blocks (%d,%d) and (%d,%d) touch or overlap" % (si, k0, l0, k1, l1))
                 break
+        # the same for windows that cover only a part of the recording (whichever directories hold that part)
+        span = hi - lo
+        for wa, wb in ((lo, lo + span // 3), (lo + span // 3, lo + 2 * span // 3), (lo + 2 * span // 3 + 1, hi), (a, lo + span // 5)):
+            if wb - wa <= 1 << 16 and wb >= wa:
+                with rfharness.quiet_fds():
+                    cbw = [(int(k), int(v)) for k, v in rd.get_continuous_blocks(wa, wb, "ch0").items()]
+                    rdw = [(int(k), int(v.shape[0])) for k, v in rd.read(wa, wb, "ch0").items()]
+                if cbw != rdw:
+                    fail("union-read-vs-blocks", "step %d: window [%d,%d]: read() blocks %r, get_continuous_blocks %r" % (si, wa, wb, rdw[:5], cbw[:5]))
+                    break
         if end - a <= 1 << 16:
             with rfharness.quiet_fds():
                 whole = rd.read(a, end, "ch0")
